@@ -107,13 +107,15 @@ def oracle_nocolons(d):
 LEAD = ["That part of", "All that portion of", "That part of the NE/4 of", "A strip of land in", "The west 100 feet of", "That portion in"]
 TRAIL = ["lying north of the river", "lying within the right-of-way of the county road", "that lies east of the creek",
          "lying outside the highway right-of-way", "described by metes and bounds", "lying south of the railroad"]
-PLACE = ["before_space", "before_line", "before_colon", "between", "after", "after_line"]
+PLACE = ["before_space", "before_line", "before_colon", "between", "after", "after_line", "between_and_after", "before_and_after"]
+BETWEEN_CONN = [", ", " of ", ", in ", " in ", ", all in ", ",\n"]
+TRAIL2 = ["containing 40 acres, more or less", "subject to an easement for a road", "being the Wilson tract"]
 _TRSP = ["std", "words", "abbr", "lower", "space"]
 
 WITHIN = st.fixed_dictionaries({
     "lead": st.sampled_from(LEAD), "trail": st.sampled_from(TRAIL), "lst": L.rendered_list("sec", 36, 2), "place": st.sampled_from(PLACE),
     "twp": st.integers(1, 200), "rge": st.integers(3, 120), "ns": st.sampled_from("ns"), "ew": st.sampled_from("ew"),
-    "tr_sp": st.sampled_from(_TRSP),
+    "tr_sp": st.sampled_from(_TRSP), "conn": st.sampled_from(BETWEEN_CONN), "trail2": st.sampled_from(TRAIL2),
 })
 
 
@@ -129,7 +131,11 @@ def within_text(c):
     if p == "before_colon":
         return f"{trt}: {core}"
     if p == "between":
-        return f"{c['lead']} {sec}, {trt}, {c['trail']}"
+        return f"{c['lead']} {sec}{c['conn']}{trt}, {c['trail']}"
+    if p == "between_and_after":
+        return f"{c['lead']} {sec} {c['trail']}{c['conn']}{trt}, {c['trail2']}"
+    if p == "before_and_after":
+        return f"{trt} {c['lead']} {sec} {c['trail']}, {c['trail2']}"
     if p == "after":
         return f"{core}, {trt}"
     return f"{core}\n{trt}"
@@ -140,6 +146,10 @@ def oracle_within(c):
     d = PLSSDesc(text, config="sec_within")
     lead = re.sub(r"\s+(of|in)$", "", c["lead"])
     want_desc = f"{lead} {c['trail']}"
+    if c["place"] == "between_and_after":
+        want_desc = f"{lead} {c['trail']} {c['trail2']}"
+    elif c["place"] == "before_and_after":
+        want_desc = f"{lead} {c['trail']}, {c['trail2']}"
     twprge = f"{c['twp']}{c['ns']}{c['rge']}{c['ew']}"
     want = [(f"{twprge}{n:02d}", want_desc) for n in L.expand(c["lst"]["items"])]
     fails = []
@@ -162,6 +172,8 @@ def oracle_within(c):
 
 def validate_within(c):
     items = c["lst"]["items"]
+    if c.get("conn") not in BETWEEN_CONN or c.get("trail2") not in TRAIL2:
+        return False
     if not items or c["lead"] not in LEAD or c["trail"] not in TRAIL or not (1 <= c["twp"] <= 999 and 3 <= c["rge"] <= 999):
         return False
     for it in items:
